@@ -421,7 +421,7 @@ def run(ctx):
             ctx.count('corpus')
             run_detail(ctx, json.loads(f.read_text()))
     thorough = (ctx.tier == 'thorough')
-    n_problems = 200 if thorough else 30
+    n_problems = 160 if thorough else 30
     n_edge_rounds = 6 if thorough else 1
     for k in range(n_problems):
         prob = su.gen_problem(rng)
